@@ -60,7 +60,8 @@ NR(q, t) == IF Thorough THEN t ELSE q
 Jobs_C01 ==
    S2Q({Call("add", <<"fx", "fx">>, p) : p \in PairsAdd}) \o S2Q({CallAsg("add", <<"fx", "fx">>, p) : p \in PairsAdd})
    \o S2Q({Call("sub", <<"fx", "fx">>, p) : p \in PairsSub}) \o S2Q({CallAsg("sub", <<"fx", "fx">>, p) : p \in PairsSub})
-   \o <<Rand("add", <<"fx", "fx">>, NR(15000, 400000), Seed), Rand("sub", <<"fx", "fx">>, NR(15000, 400000), Seed + 1),
+   \o <<RandM("add", <<"fx", "fx">>, NR(4000, 100000), Seed + 5, "related"), RandM("sub", <<"fx", "fx">>, NR(4000, 100000), Seed + 6, "related"),
+        Rand("add", <<"fx", "fx">>, NR(12000, 400000), Seed), Rand("sub", <<"fx", "fx">>, NR(12000, 400000), Seed + 1),
         [Rand("add", <<"fx", "fx">>, NR(3000, 50000), Seed + 2) EXCEPT !.asg = 1],
         [Rand("sub", <<"fx", "fx">>, NR(3000, 50000), Seed + 3) EXCEPT !.asg = 1]>>
 
@@ -92,7 +93,7 @@ Jobs_C02 ==
          S2Q({Call("mul", <<"fx", IntTagsG[i]>>, <<a, n>>) : a \in FxForScalar, n \in IntLm(IntTagsG[i])})
          \o S2Q({Call("mul", <<IntTagsG[i], "fx">>, <<n, a>>) : a \in FxForScalar, n \in IntLm(IntTagsG[i])})
          \o <<Rand("mul", <<"fx", IntTagsG[i]>>, NR(1500, 40000), Seed + 10 + i), Rand("mul", <<IntTagsG[i], "fx">>, NR(1500, 40000), Seed + 20 + i)>>])
-   \o <<RandM("mul", <<"fx", "fx">>, NR(6000, 300000), Seed + 3, "prodedge"), Rand("mul", <<"fx", "fx">>, NR(6000, 300000), Seed + 4), RandB("mul", <<"fx", "fx">>, NR(10000, 300000), Seed + 5, 34),
+   \o <<RandM("mul", <<"fx", "fx">>, NR(4000, 100000), Seed + 2, "related"), RandM("mul", <<"fx", "fx">>, NR(6000, 300000), Seed + 3, "prodedge"), Rand("mul", <<"fx", "fx">>, NR(6000, 300000), Seed + 4), RandB("mul", <<"fx", "fx">>, NR(10000, 300000), Seed + 5, 34),
         RandB("mul", <<"fx", "fx">>, NR(5000, 100000), Seed + 6, 48)>>
 
 (* ---- C03: quotients ------------------------------------------------------------------------------ *)
@@ -104,7 +105,7 @@ Jobs_C03 ==
    \o FlatSeq([i \in 1..NT |->
          S2Q({Call("div", <<"fx", IntTagsG[i]>>, <<a, n>>) : a \in FxForScalar, n \in IntLm(IntTagsG[i])})
          \o <<Rand("div", <<"fx", IntTagsG[i]>>, NR(1500, 40000), Seed + 30 + i)>>])
-   \o <<Rand("div", <<"fx", "fx">>, NR(10000, 300000), Seed + 7), RandB("div", <<"fx", "fx">>, NR(10000, 300000), Seed + 8, 47),
+   \o <<RandM("div", <<"fx", "fx">>, NR(4000, 100000), Seed + 6, "related"), Rand("div", <<"fx", "fx">>, NR(10000, 300000), Seed + 7), RandB("div", <<"fx", "fx">>, NR(10000, 300000), Seed + 8, 47),
         RandB("div", <<"fx", "fx">>, NR(5000, 100000), Seed + 9, 33)>>
 
 (* ---- C04: integer <-> fixed ---------------------------------------------------------------------- *)
@@ -131,7 +132,7 @@ Jobs_C04 ==
 Jobs_C06 ==
    S2Q({Call("cmp", <<"fx", "fx">>, <<a, b>>) : a \in LmRaw, b \in LmRaw})
    \o S2Q({Call(op, <<"fx">>, <<a>>) : op \in {"isnan", "neg", "abs"}, a \in LmAll})
-   \o <<Rand("cmp", <<"fx", "fx">>, NR(10000, 300000), Seed + 60), Rand("isnan", <<"fx">>, NR(5000, 100000), Seed + 61),
+   \o <<RandM("cmp", <<"fx", "fx">>, NR(6000, 200000), Seed + 59, "related"), Rand("cmp", <<"fx", "fx">>, NR(8000, 300000), Seed + 60), Rand("isnan", <<"fx">>, NR(5000, 100000), Seed + 61),
         Rand("neg", <<"fx">>, NR(5000, 100000), Seed + 62), Rand("abs", <<"fx">>, NR(5000, 100000), Seed + 63),
         Sweep("isnan", "fx", Maxv -- ZN(300), NaNv, 1), Sweep("isnan", "fx", NegNaN, Lowestv ++ ZN(300), 1),
         Sweep("abs", "fx", ZN(-300), ZN(300), 1), Sweep("neg", "fx", ZN(-300), ZN(300), 1)>>
@@ -152,7 +153,7 @@ Jobs_C18 ==
    S2Q({CallR(op, x, r) : op \in {"shl", "shr"}, x \in LmFinite, r \in ShiftCounts})
    \o S2Q({Call("and", <<"fx", "fx">>, <<a, b>>) : a \in LmRaw, b \in LmRaw})
    \o <<RandR("shl", <<"fx">>, NR(10000, 300000), Seed + 80), RandR("shr", <<"fx">>, NR(10000, 300000), Seed + 81),
-        Rand("and", <<"fx", "fx">>, NR(5000, 200000), Seed + 82)>>
+        Rand("and", <<"fx", "fx">>, NR(5000, 200000), Seed + 82), RandM("and", <<"fx", "fx">>, NR(3000, 100000), Seed + 83, "related")>>
 
 (* ---- C13: square root ----------------------------------------------------------------------------- *)
 SqrtOpsG == <<"sqrt_abacus", "sqrt_std", "sqrt">>
